@@ -192,7 +192,8 @@ func (m *ModelServer) AcknowledgePublication(_ context.Context, request *traits.
 		}),
 	)
 
-	if err == alreadyAcknowledged && request.AllowAcknowledged {
+	// the collection re-wraps status errors, so err is never alreadyAcknowledged itself: go by what the check recorded
+	if acknowledgedPub != nil && request.AllowAcknowledged {
 		return acknowledgedPub, nil
 	}
 
